@@ -109,3 +109,16 @@ Definition h_ks_stages (wa wb a b cin : Z) : list (list Z * list Z) :=
   let n := length A in
   map (fun gp => (map b2z (fst gp), map b2z (snd gp)))
       (ks_trace n 1 n (ks_init_gen A B (negb (cin =? 0)), map2 xorb A B)).
+
+(* structural tie for kogge_stone: generate/propagate lists at the head of every
+   stage, for the pre-fix (v = 0) or current (v <> 0) initial generate bits *)
+Definition h_ks_stages_v (v wa wb a b cin : Z) : list (list Z * list Z) :=
+  let '(A, B) := match2 (bits wa a) (bits wb b) in
+  let n := length A in
+  let init := if v =? 0 then ks_init_gen_asis else ks_init_gen_cin in
+  map (fun gp => (map b2z (fst gp), map b2z (snd gp)))
+      (ks_trace n 1 n (init A B (negb (cin =? 0)), map2 xorb A B)).
+
+Definition h_ks_stages_many (v wa wb : Z) (cases : list (Z * Z * Z))
+  : list (list (list Z * list Z)) :=
+  map (fun c => let '(a, b, cin) := c in h_ks_stages_v v wa wb a b cin) cases.
